@@ -139,8 +139,19 @@ func cleanup(indexDir string, repos []uint32, now time.Time, shardMerging bool) 
 			_ = os.Chtimes(shard.Path, now, now)
 		}
 
-		if shardMerging && maybeSetTombstone(shards, repo) {
-			continue
+		if shardMerging {
+			// The repo can be alive in a compound shard and in simple shards
+			// at once (eg a crash between writing new shards and tombstoning
+			// the old copy). Tombstone it in the compound shards so we don't
+			// remove them together with the other repos they contain.
+			simple := shards[:0]
+			for _, s := range shards {
+				if maybeSetTombstone([]shard{s}, repo) {
+					continue
+				}
+				simple = append(simple, s)
+			}
+			shards = simple
 		}
 		moveAll(trashDir, shards)
 	}
